@@ -320,6 +320,8 @@ pub struct TextPlan {
     pub lines: u64,
     pub mutations: u64,
     pub deepblock: u64,
+    /// model-rendered well-formed streams (G-model)
+    pub rendered: u64,
     pub rand_block: u64,
     pub corpus: bool,
 }
@@ -344,6 +346,9 @@ impl TextPlan {
         }
         if self.mutations > 0 {
             v.push(StreamSpec::new("mut", self.mutations.div_ceil(self.rand_block), false, &format!("{} mutated test-suite / golden documents (1..6 mutations)", self.mutations)));
+        }
+        if self.rendered > 0 {
+            v.push(StreamSpec::new("rendered", self.rendered.div_ceil(self.rand_block), false, &format!("{} streams rendered from abstract node trees under generated layout (the C03 generator; 1 in 8 additionally hit by one random mutation)", self.rendered)));
         }
         if self.deepblock > 0 {
             v.push(StreamSpec::new("deepblock", self.deepblock.div_ceil(self.rand_block), false, &format!("{} block scalars under indentation 0..140 (crossing the 16- and 128-char buffer thresholds), literal/folded x chomping x explicit indicator x line shapes x tail", self.deepblock)));
@@ -423,6 +428,33 @@ impl TextPlan {
                 );
                 post_shrink(ctx, check);
             }
+            "rendered" => {
+                let n = Self::cases_in_block(self.rendered, self.rand_block, block) as u32;
+                let text_of = |t: &Vec<u8>, l: &Vec<u8>, m: &Option<MutOp>| {
+                    let s = crate::model::gen_stream(t, &crate::model::GenCfg::default());
+                    let (text, _) = crate::model::render(&s, l, true);
+                    match m {
+                        Some(op) => apply_mutations(&text, "k: [a, b]\n", std::slice::from_ref(op)),
+                        None => text,
+                    }
+                };
+                let strat = (
+                    proptest::collection::vec(any::<u8>(), 0..160),
+                    proptest::collection::vec(any::<u8>(), 0..300),
+                    proptest::option::weighted(0.125, (0u8..9, any::<u16>(), any::<u8>()).prop_map(|(kind, pos, arg)| MutOp { kind, pos, arg })),
+                );
+                crate::engine::run_proptest(
+                    ctx,
+                    strat,
+                    n,
+                    |(t, l, m)| text_case(&text_of(t, l, m)),
+                    |ctx, (t, l, m)| {
+                        let s = text_of(t, l, m);
+                        eval_text(ctx, check, &s)
+                    },
+                );
+                post_shrink(ctx, check);
+            }
             "deepblock" => {
                 let n = Self::cases_in_block(self.deepblock, self.rand_block, block) as u32;
                 crate::engine::run_proptest(
@@ -496,6 +528,7 @@ pub fn plan(tier: Tier, scale: f64) -> TextPlan {
             lines: q(100_000),
             mutations: q(100_000),
             deepblock: 0,
+            rendered: q(100_000),
             rand_block: 12_500,
             corpus: true,
         },
@@ -506,6 +539,7 @@ pub fn plan(tier: Tier, scale: f64) -> TextPlan {
             lines: q(1_500_000),
             mutations: q(1_000_000),
             deepblock: 0,
+            rendered: q(1_500_000),
             rand_block: 50_000,
             corpus: true,
         },
